@@ -177,9 +177,7 @@ type verifHarness struct {
 	lastInit  string
 	everBuilt bool // a filesystem was constructed since this manager process started
 	revived   bool // an Init ran after Close() on the same Server
-	// report (instead of only counting) records whose config is not their owner's config
-	staleCfgStrict bool
-	histShape      []string
+	histShape []string
 }
 
 func (h *verifHarness) mpName(path string) string {
@@ -478,7 +476,7 @@ func (h *verifHarness) exec(line string) bool {
 		}
 		if h.closed {
 			// Init on a Server whose Close() has run: with a filesystem left over from before the
-			// Close it turns Ready again whatever its own outcome (candidate finding)
+			// Close it turns Ready again whatever its own outcome (known finding)
 			h.revived = true
 		}
 		res = h.rpc(func() error {
@@ -636,19 +634,15 @@ func (h *verifHarness) oracleMount(p, lab, res string, before verifState) {
 		if _, was := before.fsMap[p]; !was && len(h.mountCalls) != 1 {
 			h.out.Fail("mount-ok-without-fs-mount", fmt.Sprintf("Mount(%s) returned ok with %d fs.Mount calls", h.mpName(p), len(h.mountCalls)))
 		}
-		// observation (not part of the predicate unless VERIF_C17_STALECFG=1): the record written for a
-		// NEW mount carries fm.config, which a failed re-Init may have replaced while the filesystem
-		// built from the previous config keeps serving.  (restoreFuseInfo never reads the field.)
+		// observation, NOT a clause of C17 (the property speaks of mountpoints and labels, and
+		// restoreFuseInfo never reads the field): the record written for a NEW mount carries fm.config,
+		// which a failed re-Init may have replaced while the filesystem built from the previous config
+		// keeps serving.  Only counted; checks/C17.py turns the count into an evidence note.
 		if len(h.mountCalls) == 1 {
 			recs, _, open := h.readStore()
 			for _, f := range h.fakes {
 				if open && f.id == h.mountCalls[0].fs && recs[p].cfg != f.gen {
 					h.out.Count("obs-record-config-differs-from-owner-config")
-					if h.staleCfgStrict {
-						h.out.Fail("record-config-not-owner-config", fmt.Sprintf(
-							"Mount(%s) was served by fs%d (built from config %s) but the record written carries config %s",
-							h.mpName(p), f.id, f.gen, recs[p].cfg))
-					}
 				}
 			}
 		}
@@ -944,8 +938,8 @@ func verifScenarios(osIdx int, osBit string, plain []int) [][]string {
 	}
 }
 
-// verifAfterCloseScenarios: Init on a Server whose Close has run (see the candidate finding
-// `served-after-close-unrecorded`).
+// verifAfterCloseScenarios: Init on a Server whose Close has run (known finding
+// `served-after-close-unrecorded`); run on every check with VERIF_C17_AFTERCLOSE=1.
 func verifAfterCloseScenarios(plain []int) [][]string {
 	p := func(i int) string { return strconv.Itoa(plain[i]) }
 	return [][]string{
@@ -1101,7 +1095,6 @@ func TestVerifC17(t *testing.T) {
 	}
 
 	afterClose := os.Getenv("VERIF_C17_AFTERCLOSE") == "1"
-	h.staleCfgStrict = os.Getenv("VERIF_C17_STALECFG") == "1"
 	if rp := os.Getenv("VERIF_C17_REPLAY"); rp != "" {
 		b, err := os.ReadFile(rp)
 		if err != nil {
